@@ -7,6 +7,13 @@ then xtuml.sort_reflexive is called on QuerySets holding the members in several 
 Construction routes: the API, and (family `loaded`) xtuml.ModelLoader: instances and chain / ring links are written as
 SQL text (rows with explicit Id and Next_Id / Other_Id values) and loaded; edits and sorts run on the loaded model.
 
+Family `variant` varies what the statement is silent about (so the result may not depend on it): WHEN
+Association.formalize() is called (before the instances exist / once the chains are built / after the last edit / never:
+relate() and navigation work on the links alone, formalize only turns the referential attributes into views of them), the
+TYPE and VALUES of the identifying attribute (generator ids, or explicit unique_id / integer / string values incl. the
+type's null value 0 / ''), and members that were removed from the instance pool with delete(inst, disconnect=False) AFTER
+the set was selected (they are still members of the set and still linked into their chain).
+
   D  from the construction recipe (the harness knows the chains it built): whole-chain sets come back as
      every member exactly once, each chain contiguous, starting at the member without partner across the
      phrase and following the opposite phrase; chains in the set-order of those starting members; the other
@@ -26,10 +33,14 @@ RULE = ('exhaustive: every arrangement of n labelled instances into ordered chai
         'creation order and in one permuted order; every ring of n <= 6 (thorough 7) instances in every cyclic order; '
         'arbitrary subsets and ring+chain mixtures for termination; random sets of 50-500 instances. Non-trivial: a '
         'chain of >= 2 members or a ring; distinct = distinct (arrangement, set order, phrase); family `loaded`: a sample of all of '
-        'these with the arrangement loaded from SQL text by xtuml.ModelLoader instead of built with relate()')
+        'these with the arrangement loaded from SQL text by xtuml.ModelLoader instead of built with relate(); family `variant`: random '
+        'arrangements of 1-7 instances (chains, or one ring) with the association formalized first / once built / last / never, '
+        'generator or explicit unique_id / integer / string identifiers incl. the null value, and members deleted with '
+        'disconnect=False after the set was selected')
 EXHAUSTIVE = {'quick': True, 'thorough': True}
 ASSUMPTIONS = ['the association is reflexive, conditional 1:1 with two distinct phrases; chains are built with relate() or '
-               '(family loaded) loaded from SQL text']
+               '(family loaded) loaded from SQL text; a member deleted with disconnect=False after the set was selected is still a member '
+               'of the set and of its chain (family variant)']
 CHUNK = 1500
 CASE_TIMEOUT_S = 10
 SCHEMA = mc.SHAPES['reflexive']
@@ -54,6 +65,70 @@ def setup(ctx):
     import xtuml
     _x = xtuml
     mc.bind(xtuml)
+
+
+# --------------------------------------------------------------------------------------------- family `variant`: the model
+FORMALIZE = ('first', 'built', 'last', 'never')     # when Association.formalize() is called; 'first' is what mc.Model does
+ID_TYPES = ('unique_id', 'integer', 'string')
+
+
+def typed_schema(schema, ty):
+    """the schema with every unique_id attribute (identifying and referential) declared as `ty`"""
+    return {'classes': [dict(c, attrs=[(n, ty if t == 'unique_id' else t) for n, t in c['attrs']]) for c in schema['classes']],
+            'assocs': schema['assocs']}
+
+
+def is_plain(case):
+    """the case uses none of the `variant` dimensions"""
+    return case.get('formalize', 'first') == 'first' and not case.get('ids') and not case.get('ghosts')
+
+
+class VariantModel(mc.Model):
+    """mc.Model whose associations are formalized on demand (`formalize_all`), whose instances get the explicit identifying
+    values `ids['values'][creation index]` (type `ids['type']`), and which understands the op ['ghost', i] =
+    xtuml.delete(inst, disconnect=False): out of the pool, still linked"""
+    ids = None            # (what from_sql leaves: the loader has formalized, the identifiers are the text's)
+    formalized = True
+
+    def __init__(self, schema, formalize_first=True, ids=None):
+        x = _x
+        if ids:
+            schema = typed_schema(schema, ids['type'])
+        self.schema = schema
+        self.ids = ids
+        self.m = x.MetaModel(x.IntegerGenerator())
+        self.metaclasses = [self.m.define_class(c['name'], list(c['attrs'])) for c in schema['classes']]
+        self.assocs = []
+        for a in schema['assocs']:
+            self.assocs.append(self.m.define_association(
+                a['rel'], schema['classes'][a['src']]['name'], list(a['skeys']), a['smany'], a['scond'], a['sphrase'],
+                schema['classes'][a['tgt']]['name'], list(a['tkeys']), a['tmany'], a['tcond'], a['tphrase']))
+        self.formalized = False
+        self.insts = []
+        self.index = {}
+        if formalize_first:
+            self.formalize_all()
+
+    def formalize_all(self):
+        if not self.formalized:
+            for ass in self.assocs:
+                ass.formalize()
+            self.formalized = True
+
+    def new(self, k, *args, **kwargs):
+        if self.ids and self.schema['classes'][k]['id']:
+            kwargs = dict(kwargs)
+            kwargs[self.schema['classes'][k]['id']] = self.ids['values'][len(self.insts)]
+        return mc.Model.new(self, k, *args, **kwargs)
+
+    def apply(self, op):
+        if op[0] == 'ghost':
+            try:
+                _x.delete(self.insts[op[1]], disconnect=False)
+                return Sym('ok')
+            except _x.DeleteException:
+                return Sym('DeleteException')
+        return mc.Model.apply(self, op)
 
 
 def arrangements(n):
@@ -159,13 +234,15 @@ def generate(ctx):
     'route': 'sql', 'prefix': number of ops loaded); the edits and the sorts then run on the loader-built model"""
     lr = ctx.rng.fork('loaded')
     quota = {'chains': ctx.pick(250, 3000), 'ring': ctx.pick(80, 800), 'mix': ctx.pick(60, 600), 'edited': ctx.pick(250, 3000),
-             'two': ctx.pick(120, 1500), 'big': ctx.pick(3, 30), 'empty': 1}
+             'two': ctx.pick(120, 1500), 'big': ctx.pick(3, 30), 'empty': 1, 'variant': ctx.pick(60, 600)}
     for case in _generate(ctx):
         yield case
         if case['n'] == 0 or case['fam'] == 'long':
             continue
+        if case.get('formalize', 'first') != 'first' or case.get('ids'):
+            continue        # the loader formalizes every association and reads the identifiers from the text
         # small arrangements are many: take them with a probability that favours the larger ones
-        p = {'chains': 0.03 if case['n'] >= 6 else 0.3, 'ring': 0.15, 'mix': 0.5, 'edited': 0.2, 'two': 0.25, 'big': 0.3}[case['fam']]
+        p = {'chains': 0.03 if case['n'] >= 6 else 0.3, 'ring': 0.15, 'mix': 0.5, 'edited': 0.2, 'two': 0.25, 'big': 0.3, 'variant': 0.5}[case['fam']]
         if quota[case['fam']] > 0 and lr.random() < p:
             quota[case['fam']] -= 1
             c = dict(case)
@@ -306,6 +383,50 @@ def _generate(ctx):
                 sorts.append([list(range(n)), rel, ph])
                 sorts.append([list(order), rel, ph])
         yield {'n': n, 'chains': arrangement(), 'rings': [], 'chains_b': arrangement(), 'schema': sch, 'fam': 'two', 'sorts': sorts}
+    # what the statement is silent about, VARIED: when the association is formalized (if at all), type and values of the
+    # identifying attribute (incl. the type's null value), members deleted with disconnect=False after the set was selected
+    for i in range(ctx.pick(1000, 12000)):
+        r = rng.fork('variant', i)
+        n = r.randint(1, 7)
+        members = list(range(n))
+        r.shuffle(members)
+        chains, rings, cur = [], [], []
+        if r.random() < 0.2:
+            rings = [members]
+        else:
+            for x in members:
+                cur.append(x)
+                if r.random() < 0.3:
+                    chains.append(cur)
+                    cur = []
+            if cur:
+                chains.append(cur)
+        case = {'n': n, 'chains': chains, 'rings': rings, 'edits': [], 'fam': 'variant'}
+        if not rings and r.random() < 0.3:
+            links = [(a, b) for c in chains for a, b in zip(c, c[1:])]
+            if links and r.random() < 0.6:
+                case['edits'].append(['unrelate'] + list(r.choice(links)))
+            elif n > 1:
+                case['edits'].append(['delete', r.choice(members)])
+        cs, rs, live = structure_after(case)
+        dims = [d for d in ('formalize', 'ids', 'ghosts') if r.random() < 0.5] or [r.choice(['formalize', 'ids', 'ghosts'])]
+        if 'formalize' in dims:
+            case['formalize'] = r.choice(FORMALIZE[1:])
+        if 'ids' in dims:
+            ty = r.choice(ID_TYPES)
+            vals = r.sample(['a', 'b', 'c', 'd', 'e', 'f', 'g', 'A'] if ty == 'string' else list(range(1, 12)), n)   # distinct
+            if r.random() < 0.6:                              # one instance carries the type's null value ('' / 0)
+                vals[r.randrange(n)] = '' if ty == 'string' else 0
+            case['ids'] = {'type': ty, 'values': vals}
+        if 'ghosts' in dims:
+            case['ghosts'] = sorted(r.sample(sorted(live), r.randint(1, min(2, len(live)))))
+        order = sorted(live)
+        r.shuffle(order)
+        case['sorts'] = [[sorted(live), 'R2', 'precedes'], [sorted(live), 'R2', 'succeeds'],
+                         [order, 'R2', 'precedes'], [order, 'R2', 'succeeds']]
+        if len(live) > 1:
+            case['sorts'].append([r.sample(order, r.randint(1, len(live) - 1)), 'R2', r.choice(['precedes', 'succeeds'])])
+        yield case
     # LONG chains and rings (beyond CPython's default recursion depth): the walk must not be recursive in the chain length
     for n, ringed in ((1500, False), (1500, True)) + (((4000, False), (3000, True)) if not ctx.quick() else ()):
         members = list(range(n))
@@ -368,11 +489,21 @@ def run_impl(case):
     sch = case.get('schema', 'r1')
     ops, rejected = case_ops(case)
     k0 = (len(ops) - len(case.get('edits', ()))) if case.get('route') == 'sql' else 0
-    model = mc.Model.from_sql(SCHEMAS[sch], ops[:k0]) if k0 else mc.Model(SCHEMAS[sch])
+    formalize, ghosts = case.get('formalize', 'first'), list(case.get('ghosts', ()))
+    if is_plain(case):
+        model = mc.Model.from_sql(SCHEMAS[sch], ops[:k0]) if k0 else mc.Model(SCHEMAS[sch])
+    elif k0:
+        # the loader formalizes and writes its own identifiers: only the ghosts vary on this route
+        model = VariantModel.from_sql(SCHEMAS[sch], ops[:k0])
+    else:
+        model = VariantModel(SCHEMAS[sch], formalize == 'first', case.get('ids'))
+    built = len(ops) - len(case.get('edits', ()))
     obs, fails = [], []
     for i, op in enumerate(ops):
         if i < k0:
             continue
+        if i == built and formalize == 'built' and not k0:
+            model.formalize_all()
         out = model.apply(op)
         if i in rejected:
             if str(out) == 'ok':
@@ -381,10 +512,24 @@ def run_impl(case):
         elif str(out) != 'ok':
             # every op of the recipe is legal on the structure built so far: a refusal is a finding, not a harness error
             fails.append({'sig': 'recipe-op-rejected', 'what': 'the legal operation %s was refused with %s after %s' % (op, out, ops[:i])})
-    for (i, key, v) in model.ref_copies():
+    if formalize in ('built', 'last') and not k0:
+        model.formalize_all()
+    # (an association formalized late or never leaves the values new() stored under the attribute's name: not this property's concern)
+    for (i, key, v) in (model.ref_copies() if formalize == 'first' or k0 else ()):
         fails.append({'sig': 'referential-copy-in-dict', 'what': 'instance %d keeps %r = %r in its own dictionary although the '
                       'attribute is referential (route %s)' % (i, key, v, case.get('route', 'api'))})
     sets = {}
+    if ghosts:
+        # the sets are selected first; then some of their members are removed from the instance pool WITHOUT being disconnected:
+        # they are still members of the sets and of their chains
+        for (order, rel, ph) in case['sorts']:
+            if tuple(order) not in sets:
+                sets[tuple(order)] = _x.QuerySet([model.insts[i] for i in order])
+        for g in ghosts:
+            out = model.apply(['ghost', g])
+            if str(out) != 'ok':
+                fails.append({'sig': 'recipe-op-rejected', 'what': 'delete(instance %d, disconnect=False) was refused with %s after %s'
+                              % (g, out, ops)})
     for (order, rel, ph) in case['sorts']:
         # the SAME QuerySet object is handed to every sort of the case that uses this member order: sorting must not
         # consume or reorder the caller's set
@@ -410,10 +555,10 @@ def run_impl(case):
         want = expected(case, order, ph, rel)
         if want is not None and res != want:
             fails.append({'sig': 'order-' + case['fam'], 'what': 'chains %s rings %s: sort_reflexive(set in order %s, %s, %r) returned %s, '
-                          'the succession order is %s' % (case['chains'], case['rings'], order, rel, ph, res, want)})
+                          'the succession order is %s%s' % (case['chains'], case['rings'], order, rel, ph, res, want, variant_text(case))})
         if len(set(res)) != len(res) or not set(res) <= set(order):
             fails.append({'sig': 'not-a-subset', 'what': 'sort_reflexive(%s, %r) returned %s (duplicates or non-members); chains %s rings %s'
-                          % (order, ph, res, case['chains'], case['rings'])})
+                          % (order, ph, res, case['chains'], case['rings']) + variant_text(case)})
     # a non-QuerySet is rejected with the metamodel exception
     try:
         _x.sort_reflexive([model.insts[i] for i in sorted(structure_after(case)[2])], 'R2', 'precedes')
@@ -425,16 +570,142 @@ def run_impl(case):
         stats_extra = {'rejected_relates': len(rejected)}
     else:
         stats_extra = {}
+    if not is_plain(case):
+        stats_extra['formalize_' + formalize] = 1
+        if case.get('ids'):
+            stats_extra['ids_' + case['ids']['type']] = 1
+            stats_extra['ids_with_null_value'] = 1 if any(v in (0, '') for v in case['ids']['values']) else 0
+        if ghosts:
+            stats_extra['ghost_members'] = len(ghosts)
     return {'obs': obs, 'd_fail': fails[:3], 'nontrivial': nontrivial,
-            'key': dumps([str(case['chains']), str(case['rings']), str(case['sorts']), case.get('route', 'api')]),
+            'key': dumps([str(case['chains']), str(case['rings']), str(case['sorts']), case.get('route', 'api')]
+                         + ([] if is_plain(case) else [variant_text(case)])),
             'stats': dict({'fam_' + case['fam']: 1, 'sorts': len(case['sorts']), 'route_sql': 1 if k0 else 0}, **stats_extra)}
 
 
+def variant_text(case):
+    if is_plain(case):
+        return ''
+    out = []
+    if case.get('formalize', 'first') != 'first':
+        out.append('association formalized: %s' % case['formalize'])
+    if case.get('ids'):
+        out.append('identifiers (%s) %r' % (case['ids']['type'], case['ids']['values']))
+    if case.get('ghosts'):
+        out.append('members %s deleted with disconnect=False after the sets were selected' % list(case['ghosts']))
+    return ' [' + '; '.join(out) + ']'
+
+
 def model_line(case):
+    # when formalize() is called and which identifying values the instances carry has no counterpart in the model's link
+    # state (sortReflexiveSt reads the links alone, as the code does); a ghost is `(ghost i)`: out of the pool, links kept
     ops, _ = case_ops(case)
-    return dumps([Sym('sortrefl'), mc.schema_sexp(SCHEMAS[case.get('schema', 'r1')]), [Sym('ops')] + [mc.op_sexp(o) for o in ops],
+    return dumps([Sym('sortrefl'), mc.schema_sexp(SCHEMAS[case.get('schema', 'r1')]),
+                  [Sym('ops')] + [mc.op_sexp(o) for o in ops] + [[Sym('ghost'), g] for g in case.get('ghosts', ())],
                   [Sym('sorts')] + [[[Sym('set')] + list(o), r, p] for (o, r, p) in case['sorts']]])
 
 
 def model_obs(case, ans):
     return ans
+
+
+# ---------------------------------------------------------------------------------------------------------- minimisation
+def _recipe_ok(case):
+    """every edit of the recipe is what its kind says on the structure built so far (legal, or a relate that must be refused)"""
+    nxt = {}
+    for c in case['chains']:
+        for a, b in zip(c, c[1:]):
+            nxt[a] = b
+    for rg in case['rings']:
+        for a, b in zip(rg, rg[1:] + rg[:1]):
+            nxt[a] = b
+    if len(set(nxt.values())) != len(nxt):
+        return False
+    live = set(range(case['n']))
+    for e in case.get('edits', ()):
+        prv = dict((b, a) for a, b in nxt.items())
+        if e[0] == 'delete':
+            if e[1] not in live:
+                return False
+            live.discard(e[1])
+            nxt.pop(e[1], None)
+            if e[1] in prv:
+                del nxt[prv[e[1]]]
+            continue
+        a, b = e[1], e[2]
+        if a not in live or b not in live:
+            return False
+        if e[0] == 'unrelate':
+            if nxt.get(a) != b:
+                return False
+            del nxt[a]
+        elif e[0] == 'relate':
+            if a in nxt or b in prv:
+                return False
+            nxt[a] = b
+        elif e[0] == 'tryrelate':
+            if not (a in nxt or b in prv) or nxt.get(a) == b:
+                return False
+    members = set(x for c in case['chains'] for x in c) | set(x for rg in case['rings'] for x in rg)
+    return (members == set(range(case['n'])) and all(set(o) <= live for (o, _, _) in case['sorts'])
+            and set(case.get('ghosts', ())) <= live)
+
+
+def _without(case, x):
+    """the case without instance x (the later ones renumbered); None when an edit or the second association speaks about x"""
+    if any(x in e[1:] for e in case.get('edits', ())) or case['n'] <= 1:
+        return None
+    ren = lambda i: i - 1 if i > x else i
+    strip = lambda seqs: [s for s in ([ren(i) for i in c if i != x] for c in seqs) if s]
+    c = dict(case)
+    c['n'] = case['n'] - 1
+    c['chains'], c['rings'] = strip(case['chains']), strip(case['rings'])
+    if 'chains_b' in case:
+        c['chains_b'] = strip(case['chains_b'])
+    c['edits'] = [[e[0]] + [ren(i) for i in e[1:]] for e in case.get('edits', ())]
+    c['sorts'] = [[[ren(i) for i in o if i != x], rel, ph] for (o, rel, ph) in case['sorts']]
+    if case.get('ghosts'):
+        c['ghosts'] = [ren(i) for i in case['ghosts'] if i != x]
+    if case.get('ids'):
+        c['ids'] = dict(case['ids'], values=[v for i, v in enumerate(case['ids']['values']) if i != x])
+    return c
+
+
+def shrink_candidates(case):
+    """one sort; a default for each varied dimension; fewer edits; fewer instances; a chain cut in two"""
+    def ok(c):
+        try:
+            if not _recipe_ok(c):
+                return False
+            if c.get('route') == 'sql':
+                case_ops(c)
+            return True
+        except (ValueError, KeyError, IndexError):
+            return False
+    out = []
+    if len(case['sorts']) > 1:
+        out += [dict(case, sorts=[s]) for s in case['sorts']]
+    if case.get('route') == 'sql':
+        out.append(dict((k, v) for k, v in case.items() if k not in ('route', 'prefix')))
+    if case.get('formalize', 'first') != 'first':
+        out.append(dict(case, formalize='first'))
+        if case['formalize'] != 'never':
+            out.append(dict(case, formalize='never'))
+    if case.get('ids'):
+        out.append(dict((k, v) for k, v in case.items() if k != 'ids'))
+    for g in case.get('ghosts', ()):
+        out.append(dict(case, ghosts=[h for h in case['ghosts'] if h != g]))
+    for i in range(len(case.get('edits', ())) - 1, -1, -1):
+        out.append(dict(case, edits=case['edits'][:i] + case['edits'][i + 1:]))
+    for x in range(case['n'] - 1, -1, -1)[:40]:
+        c = _without(case, x)
+        if c is not None:
+            out.append(c)
+    for i, ch in enumerate(case['chains']):
+        if len(ch) > 2 and case['n'] <= 12:
+            out.append(dict(case, chains=case['chains'][:i] + [ch[:len(ch) // 2], ch[len(ch) // 2:]] + case['chains'][i + 1:]))
+    for c in out:
+        if ok(c):
+            if c.get('route') == 'sql':
+                c = dict(c, prefix=len(case_ops(c)[0]) - len(c.get('edits', ())))
+            yield c
